@@ -805,17 +805,18 @@ SDgetanndatainfo(int32 sdsid, ann_type annot_type, unsigned size, int32 *offseta
             if (offsetarray == NULL || lengtharray == NULL)
                 HGOTO_DONE(num_annots);
 
-            /* If more annotations than space in user's buffers, only fill up buffers */
-            if (num_annots > size)
-                num_annots = (int)size;
-
-            /* Allocate space for list of annotation IDs on this tag/ref */
+            /* Allocate space for list of annotation IDs on this tag/ref;
+               ANannlist returns all of them, however many the caller asked for */
             if ((dannots = malloc((size_t)num_annots * sizeof(int32))) == NULL)
                 HGOTO_ERROR(DFE_NOSPACE, FAIL);
 
             /* Get list of annotations IDs on this tag/ref */
             if (ANannlist(an_id, annot_type, elem_tag, elem_ref, dannots) == FAIL)
                 HGOTO_ERROR(DFE_INTERNAL, FAIL);
+
+            /* If more annotations than space in user's buffers, only fill up buffers */
+            if (num_annots > size)
+                num_annots = (int)size;
             /* Note: these ann IDs seem to be closed by HAdestroy_group() but
     I'm not sure.  MFAN needs to take care of them if not. -BMR */
 
